@@ -771,5 +771,104 @@ theorem three_rounds_quiescent (s : State) (hn : (s.clients.map (·.id)).Nodup) 
   obtain ⟨c1, c2, _⟩ := r1 (round s) hn1
   exact r3 _ hn2 c1 c2 (r2 _ hn1 b3)
 
+/-! ## a round is a schedule of the model's own actions; the drain of an epoch is reached, not assumed -/
+
+def isPub : Act → Bool
+  | .publishH _ | .publishC _ _ => true
+  | _ => false
+
+def QuietM (s t : State) : Prop := ∃ as : List Act, (∀ a ∈ as, isPub a = false) ∧ t = run true s as
+
+theorem quietM_refl (s : State) : QuietM s s := ⟨[], fun _ h => by simp at h, rfl⟩
+
+theorem quietM_trans {a b c : State} (h1 : QuietM a b) (h2 : QuietM b c) : QuietM a c := by
+  obtain ⟨l1, w1, e1⟩ := h1
+  obtain ⟨l2, w2, e2⟩ := h2
+  refine ⟨l1 ++ l2, ?_, ?_⟩
+  · intro x hx
+    rcases List.mem_append.mp hx with h | h
+    · exact w1 x h
+    · exact w2 x h
+  · rw [e2, e1]; simp [run, List.foldl_append]
+
+theorem quietM_step (s : State) (a : Act) (h : isPub a = false) : QuietM s (step true s a) :=
+  ⟨[a], fun x hx => by simp only [List.mem_singleton] at hx; rw [hx]; exact h, rfl⟩
+
+theorem quietM_iter (a : Act) (h : isPub a = false) (n : Nat) (s : State) :
+    QuietM s (iter (fun t => step true t a) n s) := by
+  induction n generalizing s with
+  | zero => exact quietM_refl s
+  | succ n ih => exact quietM_trans (quietM_step s a h) (ih _)
+
+theorem quietM_foldl {β : Type} (g : State → β → State) (hg : ∀ t b, QuietM t (g t b)) (l : List β) (s : State) :
+    QuietM s (l.foldl g s) := by
+  induction l generalizing s with
+  | nil => exact quietM_refl s
+  | cons b l ih => exact quietM_trans (hg s b) (ih _)
+
+theorem quietM_round (s : State) : QuietM s (round s) := by
+  unfold round
+  refine quietM_trans ?_ (quietM_foldl _ (fun t i => ?_) _ _)
+  · unfold hostPhase hp2 hp1
+    exact quietM_trans (quietM_trans (quietM_iter _ rfl _ _)
+      (quietM_foldl _ (fun t i => by unfold pollI; exact quietM_iter _ rfl _ _) _ _)) (quietM_iter _ rfl _ _)
+  · unfold clientPhase cp2 cp1
+    exact quietM_trans (quietM_trans (quietM_iter _ rfl _ _) (quietM_iter _ rfl _ _)) (quietM_iter _ rfl _ _)
+
+theorem quiescence_reached (s : State) (hn : (s.clients.map (·.id)).Nodup) :
+    ∃ as : List Act, (∀ a ∈ as, isPub a = false) ∧ Quiescent (run true s as) := by
+  obtain ⟨as, hw, he⟩ := quietM_trans (quietM_trans (quietM_round s) (quietM_round _)) (quietM_round _)
+  exact ⟨as, hw, he ▸ three_rounds_quiescent s hn⟩
+
+theorem hostWrites_of_quiet (a : Act) (h : isPub a = false) : HostWrites a := by
+  cases a <;> simp_all [HostWrites, isPub]
+
+theorem clientWrites_of_quiet (w : Nat) (a : Act) (h : isPub a = false) : ClientWrites w a := by
+  cases a <;> simp_all [ClientWrites, isPub]
+
+theorem last_quiet (w : Nat) (y : Option Nat) (more : List Act) (hm : ∀ a ∈ more, isPub a = false) :
+    more.foldl (pubOf w) y = y := by
+  induction more generalizing y with
+  | nil => rfl
+  | cons a more ih =>
+    have ha : pubOf w y a = y := by
+      have := hm a (by simp)
+      cases a <;> simp_all [pubOf, isPub]
+    simp only [List.foldl_cons, ha]
+    exact ih y (fun b hb => hm b (by simp [hb]))
+
+/-- **C06, inline materials, one epoch — the drain is reached, not assumed**: after the publications of one writer, under
+any schedule, there is a continuation without publications (three fair rounds) after which every peer holds the last
+publication with nothing pending. -/
+theorem epoch_total (x : Option Nat) (s : State) (e : Epoch) (hn : (s.clients.map (·.id)).Nodup)
+    (hs : Settled x s) (hd : e.disciplined) (hp : e.writer = 0 ∨ ∃ c ∈ s.clients, c.id = e.writer) :
+    ∃ more : List Act, (∀ a ∈ more, isPub a = false) ∧ Settled e.last (run true (e.run s) more) := by
+  have hn' : ((e.run s).clients.map (·.id)).Nodup := by
+    unfold Epoch.run; rw [ids_run, ids_step]; exact hn
+  obtain ⟨more, hw, hq⟩ := quiescence_reached (e.run s) hn'
+  refine ⟨more, hw, ?_⟩
+  -- the same epoch with the quiet continuation appended
+  have hrun : run true (e.run s) more = Epoch.run s { e with acts := e.acts ++ more } := by
+    simp [Epoch.run, run, List.foldl_append, firstAct]
+  have hlast : Epoch.last { e with acts := e.acts ++ more } = e.last := by
+    unfold Epoch.last
+    simp only [List.foldl_append]
+    exact last_quiet e.writer _ more hw
+  rw [hrun] at hq ⊢
+  rw [← hlast]
+  refine epoch_converges x s { e with acts := e.acts ++ more } hn hs ?_ hp hq
+  unfold Epoch.disciplined at hd ⊢
+  by_cases hw0 : e.writer = 0
+  · simp only [hw0, if_true] at hd ⊢
+    intro a ha
+    rcases List.mem_append.mp ha with h | h
+    · exact hd a h
+    · exact hostWrites_of_quiet a (hw a h)
+  · simp only [hw0, if_false] at hd ⊢
+    intro a ha
+    rcases List.mem_append.mp ha with h | h
+    · exact hd a h
+    · exact clientWrites_of_quiet e.writer a (hw a h)
+
 end Mat
 end BevySync
